@@ -394,8 +394,9 @@ def plan(tier: str) -> list[dict]:
         return ([{"mode": "machine", "max_n": 5, "examples": 70, "steps": 25, "cost": 4} for _ in range(6)]
                 + [{"mode": "env", "n_min": 4, "n_max": 5, "examples": 120, "cost": 2} for _ in range(2)]
                 + [{"mode": "env3", "examples": 30, "cost": 2}])
-    return ([{"mode": "machine", "max_n": 5, "examples": 400, "steps": 50, "with_1000": True, "cost": 10} for _ in range(9)]
-            + [{"mode": "machine", "max_n": 6, "examples": 120, "steps": 40, "cost": 10} for _ in range(3)]
+    return ([{"mode": "machine", "max_n": 5, "examples": 90, "steps": 40, "with_1000": True, "cost": 10} for _ in range(5)]
+            + [{"mode": "machine", "max_n": 5, "examples": 250, "steps": 50, "cost": 8} for _ in range(5)]
+            + [{"mode": "machine", "max_n": 6, "examples": 60, "steps": 40, "cost": 10} for _ in range(2)]
             + [{"mode": "env", "n_min": 4, "n_max": 5, "examples": 600, "cost": 8} for _ in range(3)]
             + [{"mode": "env3", "examples": 150, "cost": 6}])
 
